@@ -41,6 +41,13 @@ type c13Reply struct {
 	Delay  int     `json:"delay"`   // ticks after the transmission (≡ 1 mod 4, residues mod T distinct)
 	OnlyTx int     `json:"only_tx"` // answer only the k-th transmission of that type (−1: every one)
 	PadTo  int     `json:"pad_to"`  // exact size of the reply datagram (0: natural); 1500 is the client's read buffer size
+	// header fields a server is free to fill (a hostile or sloppy one with anything): none of them identifies the
+	// server or the lease (v4)
+	Ci    obs.Hex `json:"ciaddr,omitempty"` // client address field of the reply
+	Si    int     `json:"siaddr,omitempty"` // 0 the server's own address, 1 zero, 2 another server's address
+	Gi    obs.Hex `json:"giaddr,omitempty"`
+	Bcast bool    `json:"bcast,omitempty"`
+	Sname string  `json:"sname,omitempty"`
 }
 
 type c13Case struct {
@@ -238,6 +245,22 @@ func c13Reply4(r c13Reply, si int, xid []byte, chaddr net.HardwareAddr, serial i
 	}
 	p.YourIPAddr = net.IP(append([]byte{}, r.Yi...))
 	p.ServerIPAddr = serverIP(si)
+	switch r.Si {
+	case 1:
+		p.ServerIPAddr = net.IPv4zero
+	case 2:
+		p.ServerIPAddr = serverIP(si + 1)
+	}
+	if len(r.Ci) == 4 {
+		p.ClientIPAddr = net.IP(append([]byte{}, r.Ci...))
+	}
+	if len(r.Gi) == 4 {
+		p.GatewayIPAddr = net.IP(append([]byte{}, r.Gi...))
+	}
+	if r.Bcast {
+		p.SetBroadcast()
+	}
+	p.ServerHostName = r.Sname
 	p.UpdateOption(dhcpv4.OptMessageType(dhcpv4.MessageType(r.Type)))
 	switch r.SID {
 	case 0:
@@ -705,6 +728,7 @@ func genC13() *rapid.Generator[c13Case] {
 				r.Bad = rapid.IntRange(0, 9).Draw(t, "bad") == 0
 				r.Dup = rapid.IntRange(0, 5).Draw(t, "dup") == 0
 				r.Yi = []byte{192, 168, byte(s), byte(rapid.IntRange(1, 250).Draw(t, "yi"))}
+				c13Hostile(t, &r, s)
 				// delay ≡ 1 (mod 8), residues mod T distinct across all replies (the duplicate copy uses +4)
 				var res int
 				for tries := 0; ; tries++ {
@@ -746,8 +770,10 @@ func genC13() *rapid.Generator[c13Case] {
 					} else if rapid.IntRange(0, 4).Draw(t, "nak") == 0 {
 						second.Type = 6
 					}
+					c13Hostile(t, &second, s)
 					rs = append(rs, second)
 				}
+				c13Hostile(t, &first, s)
 				// shuffle so that the cooperative replies are not always last in the list
 				rs = rapid.Permutation(rs).Draw(t, "order")
 			}
@@ -755,6 +781,28 @@ func genC13() *rapid.Generator[c13Case] {
 		}
 		return c
 	})
+}
+
+// c13Hostile fills the header fields that carry no meaning for the exchange with what a sloppy or hostile server
+// might put there: a stray client address (zero, the offered one, another one), a foreign or empty siaddr, a relay
+// address, the broadcast flag, a server name.
+func c13Hostile(t *rapid.T, r *c13Reply, s int) {
+	switch rapid.IntRange(0, 7).Draw(t, "ci") {
+	case 0:
+		r.Ci = []byte{172, 16, byte(s), byte(rapid.IntRange(1, 250).Draw(t, "ciaddr"))}
+	case 1:
+		r.Ci = append([]byte{}, r.Yi...)
+	case 2:
+		r.Ci = []byte{0, 0, 0, 0}
+	}
+	r.Si = rapid.SampledFrom([]int{0, 0, 0, 1, 2}).Draw(t, "si")
+	if rapid.IntRange(0, 5).Draw(t, "gi") == 0 {
+		r.Gi = []byte{10, 99, byte(s), 1}
+	}
+	r.Bcast = rapid.IntRange(0, 3).Draw(t, "bcast") == 0
+	if rapid.IntRange(0, 5).Draw(t, "sname") == 0 {
+		r.Sname = "srv" + fmt.Sprint(s)
+	}
 }
 
 func TestC13_Rapid(t *testing.T) {
